@@ -24,29 +24,13 @@ Definition pkgs_ok (fs : fsmap) (x : str) : Prop :=
   forall d pk ex, pkg_of fs d = Some pk -> pk_exports pk = Some ex ->
     ex <> JNull /\ in_scope_exports ex (subpath_of x) = true.
 
-(* D12: the nearest package.json is not found beyond a node_modules directory *)
-Fixpoint nearest_crosses_nm (fs : fsmap) (fuel : nat) (dir : path) : bool :=
-  if str_eqb (base_name dir) node_modules_s
-  then match nearest_pkg fs fuel dir with Some _ => true | None => false end
-  else match pkg_of fs dir with
-       | Some _ => false
-       | None => match fuel, dir with
-                 | S f, _ :: _ => nearest_crosses_nm fs f (parent dir)
-                 | _, _ => false
-                 end
-       end.
-
-Lemma nearest_is_scope fs : forall fuel dir,
-  nearest_crosses_nm fs fuel dir = false -> nearest_pkg fs fuel dir = package_scope fs fuel dir.
+(* after the fix 6e6e7fa esbuild's nearest-package.json search IS Node's package scope lookup *)
+Lemma nearest_is_scope fs : forall fuel dir, nearest_pkg fs fuel dir = package_scope fs fuel dir.
 Proof.
-  induction fuel as [|f IH]; intros dir H; cbn [nearest_crosses_nm nearest_pkg package_scope] in *.
-  - destruct (str_eqb (base_name dir) node_modules_s).
-    + destruct (pkg_of fs dir); [discriminate|]. destruct dir; reflexivity.
-    + destruct (pkg_of fs dir); [reflexivity|]. destruct dir; reflexivity.
-  - destruct (str_eqb (base_name dir) node_modules_s).
-    + destruct (pkg_of fs dir); [discriminate|]. destruct dir; [reflexivity|].
-      destruct (nearest_pkg fs f (parent (s :: dir))); [discriminate|reflexivity].
-    + destruct (pkg_of fs dir); [reflexivity|]. destruct dir; [reflexivity|]. apply IH. exact H.
+  induction fuel as [|f IH]; intros dir; cbn [nearest_pkg package_scope].
+  - destruct (pkg_of fs dir), (str_eqb (base_name dir) node_modules_s); try reflexivity; destruct dir; reflexivity.
+  - destruct (pkg_of fs dir), (str_eqb (base_name dir) node_modules_s); try reflexivity.
+    destruct dir; [reflexivity|]. apply IH.
 Qed.
 
 (* ---- join with a plain specifier is concatenation ---- *)
@@ -209,15 +193,6 @@ Section Top.
   Hypothesis Hwf : wf_fs fs.
   Hypothesis Hts : no_ts_rewrite fs.
 
-  Lemma nearest_pkg_of : forall fuel dir pdir pk,
-    nearest_pkg fs fuel dir = Some (pdir, pk) -> pkg_of fs pdir = Some pk.
-  Proof.
-    induction fuel as [|f IH]; intros dir pdir pk; cbn [nearest_pkg].
-    - destruct (pkg_of fs dir) eqn:E; [intros H; injection H as <- <-; exact E|]. destruct dir; discriminate.
-    - destruct (pkg_of fs dir) eqn:E; [intros H; injection H as <- <-; exact E|].
-      destruct dir; [discriminate|]. apply IH.
-  Qed.
-
   Lemma package_scope_base : forall fuel dir pdir pk,
     package_scope fs fuel dir = Some (pdir, pk) ->
     str_eqb (base_name pdir) node_modules_s = false /\ pkg_of fs pdir = Some pk.
@@ -230,22 +205,17 @@ Section Top.
       destruct dir; [discriminate|]. apply IH.
   Qed.
 
-  Lemma scope_dir_no_cross pdir pk :
-    str_eqb (base_name pdir) node_modules_s = false -> pkg_of fs pdir = Some pk ->
-    nearest_crosses_nm fs (length pdir) pdir = false.
-  Proof. intros Hb Hp. destruct (length pdir); cbn [nearest_crosses_nm]; rewrite Hb, Hp; reflexivity. Qed.
-
   (* loadNodeModules (forbidImports) vs LOAD_PACKAGE_SELF + LOAD_NODE_MODULES *)
   Lemma noimports_agree user x dir :
-    bare_ok x = true -> pkgs_ok fs x -> nearest_crosses_nm fs (length dir) dir = false ->
+    bare_ok x = true -> pkgs_ok fs x ->
     agree (of_opt (load_node_modules_noimports fs KRequire user dir x))
           (cjs_package fs (cjs_conds user) x dir).
   Proof.
-    intros Hbare Hpk Hcross.
+    intros Hbare Hpk.
     destruct (bare_facts x Hbare) as (name & Hn & Hne & Hpx & Hpn).
     pose proof (nm_walk_agree fs Hwf Hts user x Hbare Hpk (length dir) dir) as Hwalk.
     unfold load_node_modules_noimports, cjs_package, LOAD_PACKAGE_SELF, name_and_subpath.
-    rewrite parse_package_name_eq_all, Hn. rewrite (nearest_is_scope fs _ _ Hcross).
+    rewrite parse_package_name_eq_all, Hn. rewrite (nearest_is_scope fs).
     destruct (package_scope fs (length dir) dir) as [[pdir pk]|] eqn:Esc; [|exact Hwalk].
     destruct (package_scope_base _ _ _ _ Esc) as [_ Hpd].
     rewrite (exports_of_ok fs x Hpk _ _ Hpd).
@@ -286,14 +256,15 @@ Section Top.
     intros Hi Hr Hb Hpd Him. destruct (Hi _ _ _ Hpd Him) as [Hnn Hsc].
     unfold load_package_imports.
     assert (Hh : str_eqb x [ch_hash] = false).
-    { unfold in_scope_imports in Hsc. apply andb_true_iff in Hsc as [Hsc _]. apply andb_true_iff in Hsc as [_ Hs].
+    { unfold in_scope_imports in Hsc. apply andb_true_iff in Hsc as [Hsc _]. apply andb_true_iff in Hsc as [Hsc _].
+      apply andb_true_iff in Hsc as [_ Hs].
       apply negb_true_iff in Hs. unfold shape_hash_slash in Hs. apply orb_false_iff in Hs as [Hs _]. exact Hs. }
     rewrite Hh, (parse_root_some im Hnn).
     pose proof (imports_resolve_eq_partial_all im x (conds_of KRequire user) Hsc) as Heq.
     pose proof (imports_resolve_no_inexact im x (conds_of KRequire user) Hsc) as Hni.
     rewrite (node_imports_resolve_ext _ _ im x (conds_require_equiv user)) in Heq.
     pose proof (fun s => Hr _ _ _ s Hpd Him) as Hrm.
-    destruct (imports_resolve x (parse im) (conds_of KRequire user)) as [res st].
+    destruct (imports_resolve x (parse_top im) (conds_of KRequire user)) as [res st].
     destruct (node_imports_resolve x im (cjs_conds user)) as [u|s|e|]; cbn [coarse] in *.
     - assert (Hst : res = u /\ (st = SExact \/ st = SExactEndsWithStar)).
       { unfold outcome_of_model in Heq. cbn [fst snd] in *.
@@ -315,7 +286,7 @@ Section Top.
       change (handle_post_conditions (s, SPackageResolve)) with (s, SPackageResolve). cbn [fst snd].
       destruct (builtin s) eqn:Ebs; [reflexivity|].
       destruct (Hrm s eq_refl Ebs) as [Hbs Hps].
-      apply noimports_agree; auto. apply (scope_dir_no_cross pdir pk Hb Hpd).
+      apply noimports_agree; auto.
     - unfold outcome_of_model in Heq. cbn [fst snd] in Heq. cbn [RESOLVE_ESM_MATCH].
       destruct st; try discriminate; reflexivity.
     - exact I.
@@ -324,10 +295,10 @@ Section Top.
   (* ---- main statements (require) ---- *)
   Lemma package_resolve_bare_all user dir x :
     is_package_path x = true -> prefixb [ch_hash] x = false ->
-    bare_ok x = true -> pkgs_ok fs x -> nearest_crosses_nm fs (length dir) dir = false ->
+    bare_ok x = true -> pkgs_ok fs x ->
     agree (resolve builtin fs KRequire user dir x) (require_resolve builtin fs user dir x).
   Proof.
-    intros Hpp Hh Hbare Hpk Hcross. unfold resolve, require_resolve. rewrite Hpp.
+    intros Hpp Hh Hbare Hpk. unfold resolve, require_resolve. rewrite Hpp.
     destruct (builtin x); [reflexivity|].
     unfold is_package_path in Hpp.
     destruct (prefixb (s_ "/") x); [discriminate|].
@@ -341,10 +312,9 @@ Section Top.
     is_package_path x = true -> prefixb [ch_hash] x = true ->
     pkgs_imports_ok x -> remap_ok user x ->
     bare_ok x = true -> pkgs_ok fs x ->      (* only used when the scope has no "imports" *)
-    nearest_crosses_nm fs (length dir) dir = false ->
     agree (resolve builtin fs KRequire user dir x) (require_resolve builtin fs user dir x).
   Proof.
-    intros Hpp Hh Hi Hr Hbare Hpk Hcross. unfold resolve, require_resolve. rewrite Hpp.
+    intros Hpp Hh Hi Hr Hbare Hpk. unfold resolve, require_resolve. rewrite Hpp.
     destruct (builtin x); [reflexivity|].
     unfold is_package_path in Hpp.
     destruct (prefixb (s_ "/") x); [discriminate|].
@@ -352,7 +322,7 @@ Section Top.
     destruct (str_eqb x (s_ ".")); [discriminate|]. destruct (str_eqb x (s_ "..")); [discriminate|].
     cbn [negb orb]. change (s_ "#") with [ch_hash]. rewrite Hh.
     unfold load_node_modules, LOAD_PACKAGE_IMPORTS. rewrite Hh.
-    rewrite (nearest_is_scope fs _ _ Hcross).
+    rewrite (nearest_is_scope fs).
     destruct (package_scope fs (length dir) dir) as [[pdir pk]|] eqn:Esc.
     - destruct (package_scope_base _ _ _ _ Esc) as [Hb Hpd].
       rewrite (imports_of_ok x _ _ Hi Hpd).
@@ -374,16 +344,9 @@ Definition w_nameless_fs : fsmap :=
 
 Lemma refuted_nameless_self_reference :
   wf_fsb w_nameless_fs = true /\ no_tsb w_nameless_fs = true /\ no_case_collision w_nameless_fs = true
-  /\ nearest_crosses_nm w_nameless_fs 0 [] = false
   /\ bare_ok (s_ "@foo") = false
   /\ resolve (fun _ => false) w_nameless_fs KRequire [] [] (s_ "@foo") = RFail
   /\ require_resolve (fun _ => false) w_nameless_fs [] [] (s_ "@foo") = NFile (pw_ ["node_modules"; "@foo"; "index.js"]).
-Proof. repeat split; vm_compute; reflexivity. Qed.
-
-(* the D12 witness violates exactly the scope-boundary hypothesis *)
-Lemma scope_witness_shape :
-  nearest_crosses_nm w_scope_fs 2 (pw_ ["node_modules"; "nopkg"]) = true
-  /\ bare_ok (s_ "rootpkg") = true /\ no_case_collision w_scope_fs = true.
 Proof. repeat split; vm_compute; reflexivity. Qed.
 
 (* ---- ES-module entry, relative and absolute specifiers: Node does no
